@@ -65,6 +65,39 @@ def nK : Nat := 0x6b
 def nCMOV : Nat := 0x434d4f56
 def nSET : Nat := 0x534554
 
+def nBSF : Nat := 0x425346
+def nBSR : Nat := 0x425352
+def nJCXZL : Nat := 0x4a43585a4c
+def nJCXZQ : Nat := 0x4a43585a51
+def nPUSHQ : Nat := 0x5055534851
+def nPUSHW : Nat := 0x5055534857
+def nPOPQ : Nat := 0x504f5051
+def nPOPW : Nat := 0x504f5057
+def nJMP : Nat := 0x4a4d50
+def nSYSCALL : Nat := 0x53595343414c4c
+def nREL8 : Nat := 0x72656c38
+def nREL32 : Nat := 0x72656c3332
+def nIMM8 : Nat := 0x696d6d38
+def nIMM32 : Nat := 0x696d6d3332
+
+/-- register ids (`reg.ID`: kind in bits 8.., index in bits 16..) used by the facts on implicit operands -/
+def idRAX : Nat := 256
+def idRCX : Nat := 65792
+def idRDX : Nat := 131328
+def idRBX : Nat := 196864
+def idRDI : Nat := 459008
+def idR11 : Nat := 721152
+def idZ0 : Nat := 512
+
+/-- What the NAME of an implicit register (`implregRAX` → `rax`) must resolve to: (name, id, mask).
+Independent of avo's `implreg.Register()`; names not listed here are not constrained. -/
+def knownImpl : List (Nat × Nat × Nat) :=
+  [ (0x616c, idRAX, 1), (0x6178, idRAX, 3), (0x656178, idRAX, 7), (0x726178, idRAX, 15)
+  , (0x656278, idRBX, 7), (0x726278, idRBX, 15)
+  , (0x656378, idRCX, 7), (0x726378, idRCX, 15)
+  , (0x6478, idRDX, 3), (0x656478, idRDX, 7), (0x726478, idRDX, 15)
+  , (0x726469, idRDI, 15), (0x723131, idR11, 15), (0x7830, idZ0, 31) ]
+
 def Opnd.reads (o : Opnd) : Bool := o.act &&& 1 == 1
 def Opnd.writes (o : Opnd) : Bool := o.act &&& 2 == 2
 
@@ -102,8 +135,47 @@ register (id, mask) is a physical register of `Gen.regs`. -/
 def implicitOK (m : Meta) (regs : RegTbl) (r : Row) : Bool :=
   r.ops.all (fun o => !o.impl ||
     (match m.implRegs[o.ty]? with
-     | some (name, id, mask) => name != 0 && id % 2 == 0 && regs.contains (id, mask)
+     | some (name, id, mask) => name != 0 && id % 2 == 0 && regs.contains (id, mask) &&
+         (match knownImpl.find? (fun k => k.1 == name) with
+          | some (_, i, k) => id == i && mask == k
+          | none => true)
      | none => false))
+
+/-- implicit operand `o` resolves (through `implreg.Register()`) to the register `(id, mask)` -/
+def implResolves (m : Meta) (o : Opnd) (id mask : Nat) : Bool :=
+  o.impl && (match m.implRegs[o.ty]? with
+    | some (_, i, k) => i == id && k == mask
+    | none => false)
+
+def isRel (m : Meta) (o : Opnd) : Bool := !o.impl && (tyName m o == nREL8 || tyName m o == nREL32)
+def isImm (m : Meta) (o : Opnd) : Bool := !o.impl && (tyName m o == nIMM8 || tyName m o == nIMM32)
+
+/-- **Rows that are never executed by the measurement** (branches, stack operations, system call):
+what can be said about their declared operands without running them.
+* a relative branch target carries no register action;
+* `JCXZQ`/`JCXZL` read the implicit `RCX`/`ECX` they test;
+* `PUSHQ/PUSHW` read their register or memory operand (an immediate has no action), `POPQ/POPW` write theirs;
+* an indirect `JMP` reads its operand;
+* `SYSCALL` writes `RCX` and `R11`. -/
+def deniedOK (m : Meta) (r : Row) : Bool :=
+  r.ops.all (fun o => !isRel m o || o.act == 0) &&
+  (r.opc != nJCXZQ || r.ops.any (fun o => implResolves m o idRCX 15 && o.reads)) &&
+  (r.opc != nJCXZL || r.ops.any (fun o => implResolves m o idRCX 7 && o.reads)) &&
+  (!(r.opc == nPUSHQ || r.opc == nPUSHW) ||
+    (match r.ops with
+     | [o] => !o.impl && (if isImm m o then o.act == 0 else o.reads && !o.writes)
+     | _ => false)) &&
+  (!(r.opc == nPOPQ || r.opc == nPOPW) ||
+    (match r.ops with
+     | [o] => !o.impl && o.writes && !o.reads
+     | _ => false)) &&
+  (r.opc != nJMP ||
+    (match r.ops with
+     | [o] => !o.impl && (isRel m o || (o.reads && !o.writes))
+     | _ => false)) &&
+  (r.opc != nSYSCALL ||
+    (r.ops.any (fun o => implResolves m o idRCX 15 && o.writes) &&
+     r.ops.any (fun o => implResolves m o idR11 15 && o.writes)))
 
 /-- actions are one of N, R, W, RW and explicit operand types are known -/
 def shapeOK (m : Meta) (r : Row) : Bool :=
@@ -150,6 +222,21 @@ def setccOK (m : Meta) (r : Row) : Bool :=
   (match r.ops with
    | [d] => !d.impl && !d.reads && d.writes
    | _ => false)
+
+/-- **BSF/BSR** leave the destination unchanged when the source is zero (on the processors measured): the
+destination register is read as well as written. -/
+def bitscanOK (m : Meta) (r : Row) : Bool :=
+  !(hasPrefix nBSF (opcName m r) || hasPrefix nBSR (opcName m r)) ||
+  (match lastExplicit r with
+   | some d => d.reads && d.writes && isSingleReg m d
+   | none => false)
+
+/-- **Opmask operands in front of the destination are read**: write masks and mask sources alike (the
+property's clause "mask registers"). -/
+def nonFinalMasksRead (m : Meta) (r : Row) : Bool :=
+  match (r.ops.filter (fun o => !o.impl)).reverse with
+  | _ :: rest => rest.all (fun o => !isK m o || o.reads)
+  | [] => true
 
 def allRows (p : Row → Bool) (rows : List Row) : Bool := rows.all p
 
